@@ -225,6 +225,11 @@ func genHostileFrame(t *rapid.T) (frame []byte, kind string) {
 			}
 		}
 		return g, "lenfield/" + lf.Kind.String()
+	case k < 58: // a CONNECT announcing another protocol name / version
+		m := genC01(t, model.CONNECT)
+		m.ProtocolName = rapid.SampledFrom([]string{"mqtt", "MQIs", "MQTX", "M", "Mq", "MQTTX", "MQIsdp", ""}).Draw(t, "protoname")
+		m.ProtocolVersion = rapid.SampledFrom([]uint8{4, 5, 3, 6}).Draw(t, "protover")
+		return ref.Canonical(&m), "connect-other-protocol"
 	case k < 63: // a property that MQTT defines, planted in a packet where it is not allowed
 		m, _, _, tree := genValidFrame(t, false)
 		secs := tree.PropSections()
